@@ -25,7 +25,7 @@ VARIANTS = {
     'development': dict(inc=[os.path.join(REPO, 'development')], header='<ffsm2/machine_dev.hpp>'),
 }
 PROPS = ['C%02d' % i for i in range(1, 21)]
-SPEC_MODULES = ['contracts.machine', 'contracts.serial', 'contracts.control', 'contracts.plans', 'contracts.c20', 'contracts.c13', 'contracts.c10', 'contracts.c07', 'contracts.structure', 'contracts.c17', 'contracts.voidp', 'contracts.sparse', 'contracts.wrappers']
+SPEC_MODULES = ['contracts.machine', 'contracts.serial', 'contracts.control', 'contracts.plans', 'contracts.c20', 'contracts.c13', 'contracts.c10', 'contracts.c07', 'contracts.structure', 'contracts.c17', 'contracts.voidp', 'contracts.sparse', 'contracts.wrappers', 'contracts.deep']
 
 
 def load_units():
@@ -100,6 +100,8 @@ def lower_group(args):
             cfile = os.path.join(work, '%s.%s.c' % (u['id'], variant))
             with open(cfile, 'w') as f:
                 f.write(txt)
+            import ledgerlib
+            led = ledgerlib.collect(b, u)
             txt_nl, lines_nl = b.render_without_loop_contracts()
             if txt_nl:
                 with open(cfile[:-2] + '.noloops.c', 'w') as f:
@@ -107,7 +109,7 @@ def lower_group(args):
             meta = {'lines': b.lines_meta, 'target': b.target_cname, 'notes': b.notes, 'bodies': list(b.ctx.fn_bodies),
                     'fn_mode': dict(b.ctx.fn_mode), 'fn_info': b.ctx.fn_info,
                     'fn_decls': list(b.ctx.fn_decls), 'consts': {k: {'kind': v['kind'], 'concrete': v.get('concrete')} for k, v in b.ctx.consts.items()}, 'native': nspec,
-                    'lines_noloops': lines_nl if txt_nl else None}
+                    'lines_noloops': lines_nl if txt_nl else None, 'ledger': led}
             out.append((u['id'], variant, cfile, meta, None, txt))
         except Unsupported as e:
             out.append((u['id'], variant, None, None, 'lowering: %s' % e, None))
@@ -139,6 +141,30 @@ def verify_job(args):
     except Exception as e:
         r = {'status': 'undecided', 'reason': 'verify crashed: %s' % e, 'obligations': [], 'times': {}, 'cmds': []}
     return (u['id'], variant, r)
+
+
+def assumed_summary(lowered, same_text):
+    """every callee contract the units of this run assume, matched with the unit that enforces a contract on the same function"""
+    import ledgerlib
+    recs, seen = [], set()
+    for (uid, v), (cfile, meta, txt) in sorted(lowered.items()):
+        if uid in seen or not meta or not meta.get('ledger'):
+            continue
+        seen.add(uid)
+        recs.append(meta['ledger'])
+    rows, counts = ledgerlib.match(recs)
+    agg = {}
+    for r in rows:
+        if r['status'] in ('same', 'user-code'):
+            continue
+        k = (r['callee'], r['status'], r['enforced_by'])
+        agg.setdefault(k, []).append(r['unit'])
+    return {'legend': 'same: the caller assumes (a weakening of) the very clauses the callee\'s unit enforces; instance-or-restated: a contract is enforced on that function '
+                      'but with different text (instantiation of a generated contract at other constants, or a restatement at the caller\'s abstraction level): assumed, '
+                      'see DESIGN.md section 6; user-code: model of arbitrary user code / logger implementation (assumption by design); not-enforced-in-this-run: the '
+                      'enforcing unit belongs to another property\'s check (evidence/C18.json runs all units)',
+            'counts': counts,
+            'not_same': [{'callee': k[0], 'status': k[1], 'enforced_by': k[2], 'assumed_in': sorted(set(us))[:6]} for k, us in sorted(agg.items())][:250]}
 
 
 def classify(u, meta, res):
@@ -392,6 +418,7 @@ def main():
                 'undecided_units': [{'unit': x[0], 'copy': x[1], 'reason': (x[2] or '')[:600]} for x in undecided],
                 'known_findings_hit': [k for k, _ in known_hits],
                 'supporting_static_facts': static_facts,
+                'assumed_contracts': assumed_summary(lowered, same_text),
             },
             'assumptions': ASSUMPTIONS,
             'wall_s': round(wall, 1),
